@@ -55,6 +55,7 @@ type Obligation struct {
 	Result  SolveResult
 	Status  string // discharged / failed / cover-sat / cover-unsat
 	Axioms  []*Term // quantified axioms of spec functions (used only if the axiom-free query is not unsat)
+	Slow    bool
 	Candidate string // model of the axiom-free query when the full query is undecided
 }
 
@@ -92,6 +93,7 @@ type Exec struct {
 	typeAxioms []*Term
 	typeAxSeen map[*Term]bool
 	qVars      map[*Term]bool
+	loopOrds   map[ast.Node]int
 }
 
 func NewExec(pr *Program) *Exec {
